@@ -44,6 +44,7 @@ Definition table_framer (T : ftable) : framer Z := {|
 (* ---------------------------------------------------------------- cases *)
 
 Inductive beh := BFull | BExc | BNothing | BPartial | BGarbage | BWrongUnit | BStale | BLate | BOSError | BClose | BOther
+| BSlow            (* the correct reply, arriving in two bursts a few tens of milliseconds apart *)
 | BWrongThenOwn.   (* a complete frame of another unit, then the own exception reply, in the same burst *)
 
 Record txn := {
@@ -52,7 +53,8 @@ Record txn := {
   x_calls : list call; x_result : result; x_sleeps : list Z;
   x_fs_exit : Z; x_noresp_exit : list Z; x_tid_exit : Z; x_ntx_exit : Z; x_conn_exit : bool;
   (* spec side: the scripted peer *)
-  x_want_tid : Z; x_behs : list beh; x_exp_full : Z; x_exp_exc : Z; x_delivered : list msg; x_refused : bool
+  x_want_tid : Z; x_behs : list beh; x_exp_full : Z; x_exp_exc : Z; x_delivered : list msg; x_refused : bool;
+  x_is_error : option bool      (* result.isError() as observed (None: the result has no isError) *)
 }.
 
 Record tcase := { k_cfg : cfg; k_table : ftable; k_tid0 : Z; k_fs0 : Z; k_txs : list txn }.
@@ -89,7 +91,8 @@ Definition agree_txn (T : ftable) (c : cfg) (st : cstate Z) (x : txn) : cstate Z
    && list_eqb Z.eqb (s_noresp st') (x_noresp_exit x)
    && (s_tid st' =? x_tid_exit x)
    && (zlen (s_tx st') =? x_ntx_exit x)
-   && Bool.eqb (s_conn st') (x_conn_exit x)).
+   && Bool.eqb (s_conn st') (x_conn_exit x)
+   && option_eqb Bool.eqb (is_error_of C (o_res o)) (x_is_error x)).
 
 Fixpoint agree_all (T : ftable) (c : cfg) (st : cstate Z) (xs : list txn) : bool :=
   match xs with
@@ -124,6 +127,7 @@ Fixpoint spec_answer (budget : nat) (roe roi : bool) (bs : list beh) : option bo
   match bs with
   | [] => Some true                              (* script exhausted: the peer is healthy *)
   | BFull :: _ => Some true
+  | BSlow :: _ => Some true
   | BExc :: _ => Some false
   | BNothing :: t => if roe then match budget with S k => spec_answer k roe roi t | O => None end else None
   | BLate :: t =>
@@ -147,21 +151,32 @@ Definition expected_ok (c : cfg) (x : txn) (want : option bool) : bool :=
       end
   end.
 
+(* what callers use to tell the three kinds of result apart: an error object and an exception response
+   (function code of the request + 0x80, i.e. 129..255) answer isError() = True, a normal response False *)
+Definition spec_is_error (r : result) : option bool :=
+  match r with
+  | RReply m => Some (129 <=? m_fc m)
+  | RErr _ => Some true
+  | _ => None
+  end.
+Definition is_error_ok (x : txn) : bool := option_eqb Bool.eqb (x_is_error x) (spec_is_error (x_result x)).
+
 Definition is_bcast (c : cfg) (x : txn) : bool := c_bcast c && (r_unit (x_req x) =? 0).
 
 (* C08 on one transaction *)
 Definition c08_txn (c : cfg) (x : txn) : bool :=
+  is_error_ok x &&
   if is_bcast c x || x_refused x then true else
   match x_result x with
   | RReply m => paired c x m && existsb (msg_eqb m) (x_delivered x)
   | _ => true
   end
-  && expected_ok c x (match x_behs x with [] => Some true | BFull :: _ => Some true | BExc :: _ => Some false
+  && expected_ok c x (match x_behs x with [] => Some true | BFull :: _ => Some true | BSlow :: _ => Some true | BExc :: _ => Some false
                                | BWrongThenOwn :: _ => if c_roi c then None else Some false | _ => None end).
 
 (* C13 on one transaction *)
 Definition c13_txn (c : cfg) (x : txn) : bool :=
-  (n_sends (x_calls x) <=? 1 + retries_spec c)
+  is_error_ok x && (n_sends (x_calls x) <=? 1 + retries_spec c)
   && match x_result x with
      | RReply _ | RErr _ => true
      | RBroadcast => is_bcast c x
